@@ -80,7 +80,8 @@ theorem loop_iter {α σ} (act : α → σ → σ) (toks : List (Tok α)) (fa fk
         rcases he with h | h
         · simp [h, hscan rfl]
         · simp [h]
-      simp only [step, hB rfl, hidx, if_true, he']
+      have hpos : n > 0 := by omega
+      simp only [step, hB rfl, hidx, hpos, and_self, if_true, he']
       simp [iter]
     | false =>
       obtain ⟨hEB, hfk⟩ := hnb rfl
@@ -95,7 +96,7 @@ theorem loop_iter {α σ} (act : α → σ → σ) (toks : List (Tok α)) (fa fk
     have hlt : i + 1 < n := by omega
     cases hb with
     | true =>
-      have hne : ¬ (i = n - 1) := by omega
+      have hne : ¬ (n > 0 ∧ i = n - 1) := by omega
       have s1 : Reach act toks (B, ⟨S, e, i, n⟩ :: st, fa s) (B+1, ⟨S, e, i, n⟩ :: st, fa s) := by
         apply Reach.one; simp only [step, hB rfl, hne, if_false]
       refine Reach.trans s1 (Reach.trans (Hk rfl _ _) ?_)
